@@ -326,7 +326,7 @@ func init() {
 // degenerateFam says whether a family is a designated degenerate one.
 func degenerateFam(f string) bool {
 	switch f {
-	case "zeros", "ones", "alt", "singlerun", "sparse", "periodic", "byteperiodic", "walk", "transition", "lfsr", "longruns", "maurergap", "maurersparse", "debruijn", "counter":
+	case "zeros", "ones", "alt", "singlerun", "sparse", "periodic", "byteperiodic", "walk", "transition", "lfsr", "longruns", "maurergap", "maurersparse", "debruijn", "counter", "cusumword":
 		return true
 	}
 	return false
